@@ -6,6 +6,7 @@ import QbeeModel.Model.Input
 import QbeeModel.Model.Using
 import QbeeModel.Model.Instr
 import QbeeModel.Model.Module
+import QbeeModel.Model.Layout
 /-
   Line-protocol driver for the executable models.  One request per line, one
   answer per line.  Unknown or malformed requests answer `bad-op`; the models
@@ -217,6 +218,73 @@ def handleModule (hex : String) : String :=
         | none => "C -"
       lits ++ " ; " ++ data ++ " ; " ++ glob ++ " ; " ++ code ++ " ; ids " ++ " ".intercalate (secs.map (toString ·.1))
 
+/-- FType in prefix form: `C` | `R n t1 … tn` -/
+partial def parseFType : List String → Option (Layout.FType × List String)
+  | "C" :: r => some (.cell, r)
+  | "R" :: n :: r => do
+      let n ← n.toNat?
+      let rec go : Nat → List String → Option (List Layout.FType × List String)
+        | 0, r => some ([], r)
+        | k + 1, r => do let (t, r') ← parseFType r; let (ts, r'') ← go k r'; pure (t :: ts, r'')
+      let (fs, r') ← go n r
+      pure (.record fs, r')
+  | _ => none
+
+def takeDims : Nat → List String → Option (List (Int × Int) × List String)
+  | 0, r => some ([], r)
+  | n + 1, lo :: hi :: r => do
+      let lo ← lo.toInt?; let hi ← hi.toInt?
+      let (ds, r') ← takeDims n r
+      pure ((lo, hi) :: ds, r')
+  | _, _ => none
+
+def takeInts : Nat → List String → Option (List Int × List String)
+  | 0, r => some ([], r)
+  | n + 1, t :: r => do let v ← t.toInt?; let (vs, r') ← takeInts n r; pure (v :: vs, r')
+  | _, _ => none
+
+/-- VType: `V ftype` | `A ftype k lo hi …` | `Y` -/
+def parseVType : List String → Option (Layout.VType × List String)
+  | "V" :: r => do let (t, r') ← parseFType r; pure (.val t, r')
+  | "A" :: r => do
+      let (t, r') ← parseFType r
+      match r' with
+      | k :: r'' => do
+          let k ← k.toNat?
+          let (ds, r3) ← takeDims k r''
+          pure (.sarr t ds, r3)
+      | [] => none
+  | "Y" :: r => some (.dyn, r)
+  | _ => none
+
+partial def parseDecls : List String → Option (List (String × Layout.VType))
+  | [] => some []
+  | n :: r => do let (t, r') ← parseVType r; let rest ← parseDecls r'; pure ((n, t) :: rest)
+
+def optNat : Option Nat → String
+  | some n => toString n
+  | none => "none"
+
+def handleLayout : List String → Option String
+  | "vidx" :: v :: r => do
+      let ds ← parseDecls r
+      pure (optNat (Layout.varIdx ds v) ++ " " ++ toString (Layout.frameSize ds))
+  | "foff" :: r => do
+      let (t, r') ← parseFType r
+      let path ← r'.mapM String.toNat?
+      pure (optNat (Layout.fieldOffset t path) ++ " " ++ toString t.size)
+  | "eidx" :: e :: k :: r => do
+      let e ← e.toNat?; let k ← k.toNat?
+      let (ds, r') ← takeDims k r
+      match r' with
+      | m :: r'' => do
+          let m ← m.toNat?
+          let (is, r3) ← takeInts m r''
+          if !r3.isEmpty then none else
+          pure (optNat (Layout.elemIndex e ds is))
+      | [] => none
+  | _ => none
+
 def handle (toks : List String) : String :=
   match toks with
   | "print" :: r =>
@@ -301,6 +369,7 @@ def handle (toks : List String) : String :=
     | none => "bad-op"
   | "input" :: r => (handleInput r).getD "bad-op"
   | ["module", hex] => handleModule hex
+  | "layout" :: r => (handleLayout r).getD "bad-op"
   | ["uscan", f] =>
     match decStr f with
     | some f => match Using.scanFmt f with
